@@ -132,6 +132,9 @@ pub mod implementations {
             ("*", ..) => left * right,
             ("/", ..) => left / right,
             ("%", ..) => left % right,
+            (">" | "<" | ">=" | "<=", ..) if !(left.is_numeric() && right.is_numeric()) => {
+                bail!("cannot compare {left} with {right} (valid ops are: <num {symbols} num>)")
+            }
             (">", ..) => Ok(bool!(left > right)),
             ("<", ..) => Ok(bool!(left < right)),
             (">=", ..) => Ok(bool!(left >= right)),
